@@ -60,6 +60,7 @@ type Spec struct {
 	Paused    bool
 	Deleting  bool
 	Claims    []string // volume claim template names
+	ClaimOwn  bool     // claim templates carry labels of their own
 	ExtraAnn  map[string]string
 	ExtraVols []string // names of non-claim volumes in the pod template
 }
@@ -164,8 +165,12 @@ func (sp Spec) Build() *asv1.StatefulSet {
 		set.DeletionTimestamp = &t
 	}
 	for _, c := range sp.Claims {
+		var own map[string]string
+		if sp.ClaimOwn {
+			own = map[string]string{"own": c}
+		}
 		set.Spec.VolumeClaimTemplates = append(set.Spec.VolumeClaimTemplates, v1.PersistentVolumeClaim{
-			ObjectMeta: metav1.ObjectMeta{Name: c},
+			ObjectMeta: metav1.ObjectMeta{Name: c, Labels: own},
 			Spec:       v1.PersistentVolumeClaimSpec{AccessModes: []v1.PersistentVolumeAccessMode{v1.ReadWriteOnce}},
 		})
 	}
